@@ -197,6 +197,8 @@ pub struct RangeOp {
     /// DrainOfW / LazyOfW: start of the range of w used as the replacement
     pub wa: usize,
     pub lie: isize,
+    /// `nth(k)` is called once, before `calls` (skipped items are destroyed, item k is handed out)
+    pub skip: Option<usize>,
 }
 
 type HintBad = Option<(usize, (usize, Option<usize>), usize, usize)>;
@@ -212,6 +214,7 @@ pub struct Cx<'a, C: Cfg> {
     owned: &'a mut Vec<C::T>,
     hint_bad: &'a mut HintBad,
     dst: Option<&'a mut V<C>>,
+    skip: Option<usize>,
 }
 
 fn consume_erased<'e, C: Cfg, I>(mut it: I, cx: &mut Cx<'_, C>)
@@ -219,6 +222,17 @@ where
     I: DoubleEndedIterator<Item = Element<'e, C::Tr, C::M>> + ExactSizeIterator,
 {
     let mut yielded = 0usize;
+    if let Some(n) = cx.skip {
+        match it.nth(n) {
+            None => cx.seen.push((false, None)),
+            Some(e) => {
+                let p = e.downcast_ref::<C::T>().and_then(|x| x.payload());
+                cx.seen.push((false, Some(p.unwrap_or(u32::MAX))));
+                drop(e);
+            }
+        }
+        yielded = n.saturating_add(1).min(cx.n_items);
+    }
     for (k, back) in cx.calls.iter().enumerate() {
         let remaining = cx.n_items - yielded.min(cx.n_items);
         let sh = it.size_hint();
@@ -257,6 +271,16 @@ where
     I: DoubleEndedIterator<Item = C::T> + ExactSizeIterator,
 {
     let mut yielded = 0usize;
+    if let Some(n) = cx.skip {
+        match it.nth(n) {
+            None => cx.seen.push((false, None)),
+            Some(e) => {
+                cx.seen.push((false, Some(e.payload().unwrap_or(u32::MAX))));
+                cx.owned.push(e);
+            }
+        }
+        yielded = n.saturating_add(1).min(cx.n_items);
+    }
     for (k, back) in cx.calls.iter().enumerate() {
         let remaining = cx.n_items - yielded.min(cx.n_items);
         let sh = it.size_hint();
@@ -322,7 +346,10 @@ impl<C: Cfg> World<C> {
         let len = self.model[v].len();
         let bounds = bounds_of(op.form, op.x, op.y);
         let want_range = oracle_range(bounds, len);
-        let pat: String = op.calls.iter().map(|b| if *b { 'B' } else { 'F' }).collect();
+        let mut pat: String = op.calls.iter().map(|b| if *b { 'B' } else { 'F' }).collect();
+        if let Some(n) = op.skip {
+            pat = format!("nth({}) {}", n, pat);
+        }
         let _ = write!(tr, "{}{}(v{}, {}", if op.typed { "typed." } else { "" }, name, v, fmt_range(op.form, op.x, op.y));
         let mut repl_kind = op.repl_kind;
         if op.typed {
@@ -394,10 +421,10 @@ impl<C: Cfg> World<C> {
             eprintln!("     range op: {}", &tr[tr.len().saturating_sub(200)..]);
         }
         let n_items = want_range.map(|(a, b)| b - a).unwrap_or(0);
-        let mut seen: Vec<(bool, Option<u32>)> = Vec::with_capacity(op.calls.len() + 1);
-        let mut owned: Vec<C::T> = Vec::with_capacity(op.calls.len() + 1);
+        let mut seen: Vec<(bool, Option<u32>)> = Vec::with_capacity(op.calls.len() + 2);
+        let mut owned: Vec<C::T> = Vec::with_capacity(op.calls.len() + 2);
         let mut hint_bad: HintBad = None;
-        let (form, x, y, lie, typed, splice) = (op.form, op.x, op.y, op.lie, op.typed, op.splice);
+        let (form, x, y, lie, typed, splice, skip) = (op.form, op.x, op.y, op.lie, op.typed, op.splice, op.skip);
 
         let r = {
             let p = self.vecs.as_mut_ptr();
@@ -411,7 +438,7 @@ impl<C: Cfg> World<C> {
             let calls = &op.calls[..];
             let sinks = &sinks[..];
             call(move || {
-                let mut cx = Cx::<C> { calls, sinks, n_items, forget_iter, seen, owned, hint_bad, dst: None };
+                let mut cx = Cx::<C> { calls, sinks, n_items, forget_iter, seen, owned, hint_bad, dst: None, skip };
                 if !typed {
                     if !splice {
                         cx.dst = Some(wv);
@@ -496,6 +523,18 @@ impl<C: Cfg> World<C> {
         let mut want_seen: Vec<(bool, Option<u32>)> = Vec::new();
         let mut moved: Vec<u32> = Vec::new();
         let mut forgotten_items = 0usize;
+        if let Some(n) = op.skip {
+            // nth(n): n items are skipped (destroyed), the next one is handed out
+            lo = n.min(hi);
+            if lo < hi {
+                want_seen.push((false, Some(removed[lo])));
+                lo += 1;
+            } else {
+                want_seen.push((false, None));
+            }
+            self.class("drain-nth");
+            self.nontrivial = true;
+        }
         for (k, back) in op.calls.iter().enumerate() {
             if lo == hi {
                 want_seen.push((*back, None));
